@@ -829,6 +829,9 @@ MID_CFG = (
     [dict(ct=ct, stage=st) for ct in ("triangle", "quad", "tetra", "hexahedron") for st in ("edges", "faces", "edges+faces")]
     + [dict(ct=ct, stage=st) for ct in ("tetra", "hexahedron") for st in ("volumes", "edges+volumes", "edges+faces+volumes")]
     + [dict(ct=ct, stage="convert") for ct in ("triangle", "quad", "tetra", "hexahedron")]
+    # the input carries points without cells behind the used ones (a mesh taken out of a MeshContainer, or after
+    # add_points): the inserted points are stacked behind ALL points and the unused ones stay what they were
+    + [dict(ct=ct, stage=st, unused="trailing") for ct in ("quad", "tetra") for st in ("edges", "edges+faces", "convert")]
     # the name of the new cell type handed in by the caller (function: cell_type_new=, Mesh method: cell_type=):
     # "custom" = a name of the caller's own at every stage, "vtk" = the VTK name spelled out (same as the automatic one)
     + [dict(ct=ct, stage="edges", via=via, name="custom") for ct in ("quad", "tetra") for via in ("function", "method")]
@@ -879,6 +882,9 @@ def midpoints(vk, cfg):
     for f in (fm.add_midpoints_edges, fm.add_midpoints_faces, fm.add_midpoints_volumes, fm.collect_edges, fm.collect_faces, fm.collect_volumes, fm.convert):
         vk.real(f)
     mesh = make_mesh(vk, ct, 2)
+    if cfg.get("unused"):
+        extra = vk.reals("Xunused", (2, mesh.points.shape[1]), near=3.0, spread=0.5)
+        mesh = fem.Mesh(np.vstack([mesh.points, extra]), mesh.cells, ct)
     P0, C0 = mesh.points, mesh.cells
     s0 = snap(vk, mesh)
     if stage == "convert":
@@ -983,7 +989,10 @@ def check_inserted(vk, cfg, label, mesh, new, kinds):
     # shared entities get one point: number of new points == number of distinct entities in the mesh
     distinct = sum(len({frozenset(cell[a] for a in e) for cell in C0 for e in ent[k]}) for k in kinds)
     ensures_same(vk, label + "/no-duplicate-inserted-points", len(new.points) - len(P0), distinct)
-    no_unused(vk, label, new)
+    if cfg.get("unused"):
+        ensures_same(vk, label + "/points-without-cells-are-those-of-the-input", sorted(int(x) for x in new.points_without_cells), sorted(int(x) for x in mesh.points_without_cells))
+    else:
+        no_unused(vk, label, new)
     vk.ensures_eq(label + "/volume", vols(new, ct=ct), vols(mesh))
     # ordering inside the cell and geometry map, against the real element of the new cell type
     E = ELEMENT_OF.get(new.cell_type)
